@@ -53,6 +53,7 @@ func c17Gadgets() []gadget {
 	helper := sim.CreateAddress("U0", 0) // H: the counter contract deployed first by U0
 	reverter := sim.CreateAddress("W", 0) // R: always reverts
 	peekRevert := sim.CreateAddress("V3", 0) // B: reads BALANCE(never-seen account), then reverts
+	picky := sim.CreateAddress("V2", 0)      // K: reverts when called without value, accepts value
 	childInit := hx2("6001600c60003960016000f300")
 	create := func(op byte, salt bool) []byte {
 		// PUSH13 init PUSH1 0 MSTORE ; [salt] size off value CREATE(2) POP
@@ -76,6 +77,8 @@ func c17Gadgets() []gadget {
 		{"call R (reverts)", fixed(callTo(reverter, 0, 0xffff)), false},
 		{"call R value 1 (reverts)", fixed(callTo(reverter, 1, 0xffff)), false},
 		{"call B (BALANCE of a never-seen account, then revert)", fixed(callTo(peekRevert, 0, 0xffff)), false},
+		{"call K value 0 (K reverts)", fixed(callTo(picky, 0, 0xffff)), false},
+		{"call K value 1 (K accepts)", fixed(callTo(picky, 1, 0xffff)), false},
 		{"call self gas 3000", func(int) []byte { return append(append(hx2("6000 6000 6000 6000 6000 30"), 0x61, 0x0b, 0xb8), 0xf1, 0x50) }, false},
 		{"create child", fixed(create(0xf0, false)), false},
 		{"create2 child", fixed(create(0xf5, true)), false},
@@ -341,7 +344,7 @@ func init() { engine.Register("C17", func() engine.Check { return &c17{} }) }
 func (c *c17) ID() string { return "C17" }
 func (c *c17) Meta() engine.Meta {
 	m := modelMeta("exhaustive program enumeration (gadget sequences) x history family on the real application, lock-step differential execution against a reference EVM world",
-		"C17: contracts assembled from 20 gadgets (SSTORE const, SLOAD+1, LOG1, BALANCE(EOA)->storage, BALANCE(never-seen address)->storage, CALL with value to an EOA / to another contract / to a reverting contract (with and without value) / to itself with little gas, CREATE and CREATE2 of a child, CALLVALUE / SELFBALANCE -> storage, a gas-burning loop, RETURN data, REVERT data, SELFDESTRUCT to another account / to the caller): ALL gadget sequences up to length 3 (quick) / 4 (thorough). Each program runs in 3 history families mixing: deployment with and without value, calls with and without value by two callers, a plain transfer to the contract, a plain transfer to a child the contract created, native transfers to and from the touched accounts before and after, staking by the caller, blocks with and without proposer, and a vm_call query after every block. "+
+		"C17: contracts assembled from 22 gadgets (SSTORE const, SLOAD+1, LOG1, BALANCE(EOA)->storage, BALANCE(never-seen address)->storage, CALL with value to an EOA / to another contract / to a reverting contract (with and without value) / to a contract that reads the BALANCE of a never-seen account and reverts / to a contract that reverts without value and accepts value / to itself with little gas, CREATE and CREATE2 of a child, CALLVALUE / SELFBALANCE -> storage, a gas-burning loop, RETURN data, REVERT data, SELFDESTRUCT to another account / to the caller): ALL gadget sequences up to length 3 (quick) / 4 (thorough). Each program runs in 3 history families mixing: deployment with and without value, calls with and without value by two callers, a plain transfer to the contract, a plain transfer to a child the contract created, native transfers to and from the touched accounts before and after, staking by the caller, native credits landing BETWEEN two contract transactions of the same block that touch the credited account, blocks with and without proposer, and a vm_call query after every block. "+
 			"Oracle: mc/evmref = vanilla go-ethereum StateDB + core.ApplyMessage with the application's chain configuration and block context; balances and nonces are overwritten from the native-ledger model before every message and copied back after it. Compared per transaction: success/failure, return data (created address for deployments), gas used, logs; at every committed height: native balance and nonce of EVERY account of the reference world, contract code and storage of every contract (also children). A failing execution follows RIGO's own rule (no effect, no fee). vm_call: same result as a read-only reference call, and the complete state is unchanged by it.",
 		"go-ethereum's interpreter, StateDB and ApplyMessage are a dependency and trusted; what is judged is the repository's state-db wrapper and controller")
 	m.LevelName = "length of the gadget sequence"
@@ -401,7 +404,8 @@ func c17History(prog []int, fam int) (sim.History, []string) {
 	initc := hex.EncodeToString(initCodeFor(runtime))
 	g := genesis3()
 	g.Holders["fresh-untouched"] = "777R"
-	P := "contract:3"
+	P := "contract:4"
+	pickyDeploy := deploy("V2", hex.EncodeToString(initCodeFor(hx2("34 15 60 06 57 00 5b 60 00 60 00 fd"))), "0")
 	peek := deploy("V3", hex.EncodeToString(initCodeFor(append(append(push20(sim.W("fresh-untouched").Addr), 0x31, 0x50), hx2("60006000fd")...))), "0")
 	big := func(s sim.TxSpec) sim.TxSpec { s.Gas = 900000; return s }
 	child := "hex:" + hex.EncodeToString(createAddr(sim.CreateAddress("U0", 1), 1))
@@ -409,16 +413,18 @@ func c17History(prog []int, fam int) (sim.History, []string) {
 	switch fam {
 	case 0:
 		blocks = []sim.Block{
-			blk(deploy("U0", counterInit, "0"), deploy("W", revertInit, "0"), peek),
+			blk(deploy("U0", counterInit, "0"), deploy("W", revertInit, "0"), peek, pickyDeploy),
 			blk(tr("W", "U1", "1R"), big(deploy("U0", initc, "0"))),
 			blk(big(call("U1", P, "", "0"))),
 			blk(big(tr("W", P, "5")), big(call("U1", P, "", "3"))),
 			blk(stk("U1", "V0", "1R"), big(call("U0", P, "", "0")), tr("U1", "W", "1")),
 			blk(big(tr("W", child, "2")), big(call("U1", P, "", "0"))),
+			// contract tx touching U1 and U0 / native credits to both (nonces unchanged) / contract txs touching them again, in ONE block
+			blk(big(call("U1", P, "", "0")), tr("W", "U1", "123456789"), tr("W", "U0", "7"), big(call("U1", P, "", "0")), big(call("U0", P, "", "1"))),
 		}
 	case 1:
 		blocks = []sim.Block{
-			blk(deploy("U0", counterInit, "0"), deploy("W", revertInit, "0"), peek),
+			blk(deploy("U0", counterInit, "0"), deploy("W", revertInit, "0"), peek, pickyDeploy),
 			blk(big(deploy("U0", initc, "2"))),
 			blkO(sim.BlockOpts{Proposer: "V1"}, big(call("U1", P, "", "1")), big(call("U1", P, "", "0"))),
 			blk(tr("U1", P, "0"), tr("U0", "U1", "3")),
@@ -427,11 +433,12 @@ func c17History(prog []int, fam int) (sim.History, []string) {
 	default:
 		nop := sim.BlockOpts{}
 		blocks = []sim.Block{
-			blk(deploy("U0", counterInit, "0"), deploy("W", revertInit, "0"), peek),
+			blk(deploy("U0", counterInit, "0"), deploy("W", revertInit, "0"), peek, pickyDeploy),
 			{Opts: nop, Txs: []sim.TxSpec{big(deploy("U0", initc, "1"))}},
 			{Opts: nop, Txs: []sim.TxSpec{big(call("U1", P, "", "2")), tr("W", "fresh-untouched", "1")}},
 			blk(big(call("U1", P, "", "0")), with(big(call("U0", P, "", "0")), func(s *sim.TxSpec) { s.Gas = 30000 }, "gas 30000")),
 			blk(unstk("V2", "V2", "V2", 0), big(tr("U1", P, "1"))),
+			blk(big(deploy("U1", "00", "0")), tr("W", "U1", "55"), big(deploy("U1", "00", "0")), tr("U0", P, "0"), tr("W", P, "9"), big(call("U1", P, "", "0"))),
 		}
 	}
 	return sim.History{Gen: g, Blocks: blocks}, names
@@ -453,12 +460,12 @@ func (c *c17) RunDesc(desc json.RawMessage) engine.Result {
 	var extra []refmodel.Finding
 	mo := &modelOpts{EVM: hook, OnStart: func(ch *sim.Chain, m *refmodel.Model) { hook.chain = ch; hook.model = m; ch.InstallRPCEnv() }}
 	mo.Gap = func(ch *sim.Chain, hh int64, kind string, idx int) {
-		if kind != "post-commit" || len(ch.Deployed) < 4 {
+		if kind != "post-commit" || len(ch.Deployed) < 5 {
 			return
 		}
 		// vm_call on the program contract: same answer as a read-only reference call; state untouched
 		before, _ := ch.DumpState(0, append(append([][]byte{}, ch.Deployed...), ch.Watch...))
-		P := ch.Deployed[3]
+		P := ch.Deployed[4]
 		from := sim.W("U1").Addr
 		data := append(append(append([]byte{}, from...), P...), []byte{}...)
 		rec, resp := ch.Query("vm_call", data, 0)
